@@ -167,6 +167,9 @@ func (fc *FuncCtx) selectOp(fr *Frame, st *State, x *ssa.Select, idx string) {
 		return
 	}
 	if !x.Blocking {
+		// a select with a default case never blocks
+		o := &Obligation{Name: fmt.Sprintf("%s/block.select#%d", fr.prefix, fc.nextOrd(fr.prefix+"/block.select")), Kind: "block.select", Func: fr.prefix, Pos: fc.posStr(x.Pos()), Goal: "true", PC: st.pc, Unit: fc.u, Props: fc.props, Structural: true, StructOK: true, Note: "non-blocking (default case)", Desc: "select has a default case: its channel operations cannot block"}
+		fc.u.Obls = append(fc.u.Obls, o)
 		return
 	}
 	// B1 (a): structural — one case receives from a timer or a lifetime channel named in the contract
